@@ -39,6 +39,7 @@ pub const EV_POLL_READY: u32 = 112;
 pub const EV_DONE_READY: u32 = 113;
 pub const EV_RA_RETURNED: u32 = 114;
 pub const EV_PROBE_FLAG: u32 = 115; // arg = flag observed by the atomic probe tick
+pub const EV_WAKE_NO_STORE: u32 = 116; // a wake call returned without passing the flag store
 pub const EV_SEND: u32 = 120; // arg = item
 pub const EV_RECORD: u32 = 130; // arg = item
 pub const EV_KNOB: u32 = 200; // arg = knob value
@@ -73,6 +74,7 @@ pub fn code_name(c: u32) -> &'static str {
         113 => "DONE_READY",
         114 => "run_available:returned",
         115 => "probe_tick:flag",
+        116 => "WAKE_CALL_RETURNED_WITHOUT_FLAG_STORE",
         120 => "SEND",
         130 => "RECORD",
         140 => "runner:exit",
@@ -307,6 +309,33 @@ pub fn event(code: u32, arg: u32) {
             let t = me();
             m.ev(t, code, arg);
         }
+    });
+}
+
+/// Number of wakes stamped so far by the calling shuttle thread.
+pub fn stamps_by_me() -> usize {
+    let t = me();
+    with(|m| m.wakes.iter().filter(|w| w.task == t).count())
+}
+
+/// Called by a waker thread right after `wake()` / `wake_by_ref()` returned. On the unchanged tree
+/// every wake call passes yield point 11 (flag store completed) exactly once, so this does nothing.
+/// If the code under test returned from the wake call *without* the flag store (mutated code), the
+/// wake is stamped here instead: the waker has fired, a tick has to follow.
+pub fn wake_call_returned(stamps_before: usize) {
+    if stamps_by_me() != stamps_before {
+        return;
+    }
+    event(EV_WAKE_NO_STORE, 0);
+    let t = me();
+    with(|m| {
+        let stamp = m.seq;
+        m.wakes.push(WakeRec { stamp, task: t, phase: "no_flag_store_observed" });
+        m.ext_stamped += 1;
+        if m.runner_started && !m.runner_exited {
+            m.interleaved_wakes += 1;
+        }
+        *m.probes.entry("wake_call_returned_without_flag_store").or_default() += 1;
     });
 }
 
